@@ -5,7 +5,9 @@ domain : histories of enter / leave (any order) of Terminal.map_fmmu(logical,
          configuration writes interleave on the bus), and of whole
          SyncGroupBase.map_fmmu contexts of two groups sharing the terminal
          (with different or with the same logical addresses),
-         on terminals with 1..4 FMMUs.
+         on terminals with 1..4 FMMUs; plus long enumerated histories in
+         which one mapping (or group) stays live while 63-512 others come and
+         go.
 oracle : invariant after every step over the slot each live mapping was given
          and the FMMU register blocks of the simulated terminal.
 """
@@ -57,6 +59,28 @@ op = st.one_of(
     st.builds(lambda e: {"op": "toop", "error": e}, st.booleans()),
     st.builds(lambda g: {"op": "gleave", "group": g}, st.integers(0, 1)),
 )
+
+
+def enumerate_cases(tier):
+    """long histories: one mapping stays live while hundreds of others come
+    and go (single mappings and whole groups), then it ends"""
+    E = {"op": "enter", "write": False, "logical": 0x1000}
+    X = {"op": "enter", "write": True, "logical": 0x2000}
+    for n in (63, 64, 65, 255, 256, 257, 512):
+        for fmmus in (2, 4):
+            ops = [E] + [X, {"op": "leave", "which": 1}] * n + [
+                dict(X, logical=0x3000), {"op": "leave", "which": 0},
+                dict(E, logical=0x4000), {"op": "leave", "which": 0},
+                {"op": "leave", "which": 0}]
+            yield {"fmmus": fmmus, "groups": ["in", "out"], "ops": ops,
+                   "init_real": False, "sms": 4, "same_base": False}
+    G0, G1 = {"op": "genter", "group": 0}, {"op": "genter", "group": 1}
+    L0, L1 = {"op": "gleave", "group": 0}, {"op": "gleave", "group": 1}
+    for n in (62, 63, 64, 65, 128):
+        ops = [G0] + [G1, L1] * n + [G1, L0, E, L1,
+                                     {"op": "leave", "which": 0}]
+        yield {"fmmus": 4, "groups": ["both", "in"], "ops": ops,
+               "init_real": False, "sms": 4, "same_base": False}
 
 
 def strategy(tier):
@@ -234,8 +258,9 @@ def run_case(case):
                 if kind in ("in", "both"):
                     maps[SyncManager.IN] = base
                     wanted.append((base, False))
-                ns = SimpleNamespace(fmmu_maps={t: maps})
-                cm = SyncGroupBase.map_fmmu(ns)
+                ns = SyncGroupBase.__new__(SyncGroupBase)
+                ns.fmmu_maps = {t: maps}
+                cm = ns.map_fmmu()
                 kinds.append("G" + kind[0])
                 try:
                     await cm.__aenter__()
